@@ -78,3 +78,45 @@ pub fn k_c11_f128_decoders() {
     vcheck!("C11.f128.read_from.accept_iff_below_modulus", r.is_ok() == (len >= 16 && x < M));
     vreach!("C11.f128.decoders.reach");
 }
+
+// Limb helpers of the 128-bit multiplication that are linear (no multiplication): decided bit-precisely over
+// their full input space, with a concrete counterexample and native replay when they fail. (The Verus unit
+// f128_core states the same contracts and uses them to prove `mul`; a rewritten helper body can lose the proof
+// hints there - these harnesses do not depend on the body's shape.)
+//# harness: fn=f128 add64_with_carry; label=complete; tier=quick
+#[cfg_attr(kani, kani::proof)]
+pub fn k_f128_add64_with_carry() {
+    let (a, b, c) = (vs::any_u64(), vs::any_u64(), vs::any_u64());
+    vs::assume(c <= 1);
+    let (lo, hi) = add64_with_carry(a, b, c);
+    vcheck!("C10.f128.add64_with_carry.exact", (lo as u128) + ((hi as u128) << 64) == (a as u128) + (b as u128) + (c as u128));
+    vreach!("C10.f128.add64.reach");
+}
+
+//# harness: fn=f128 sub_modulus; label=complete; tier=quick
+#[cfg_attr(kani, kani::proof)]
+pub fn k_f128_sub_modulus() {
+    let (lo, hi) = (vs::any_u64(), vs::any_u64());
+    let (r0, r1) = sub_modulus(lo, hi);
+    let v = (lo as u128) + ((hi as u128) << 64);
+    // (v - M) mod 2^128
+    vcheck!("C10.f128.sub_modulus.exact", (r0 as u128) + ((r1 as u128) << 64) == v.wrapping_sub(M));
+    vreach!("C10.f128.sub_modulus.reach");
+}
+
+//# harness: fn=f128 sub_192x192; label=complete (minuend >= subtrahend as 192-bit values); tier=quick
+#[cfg_attr(kani, kani::proof)]
+pub fn k_f128_sub_192x192() {
+    let (a0, a1, a2) = (vs::any_u64(), vs::any_u64(), vs::any_u64());
+    let (b0, b1, b2) = (vs::any_u64(), vs::any_u64(), vs::any_u64());
+    // a >= b as 192-bit little-endian limb vectors
+    vs::assume(a2 > b2 || (a2 == b2 && (a1 > b1 || (a1 == b1 && a0 >= b0))));
+    let (z0, z1, z2) = sub_192x192(a0, a1, a2, b0, b1, b2);
+    // limb-wise reference subtraction with borrows
+    let (d0, br0) = a0.overflowing_sub(b0);
+    let (d1a, br1a) = a1.overflowing_sub(b1);
+    let (d1, br1b) = d1a.overflowing_sub(br0 as u64);
+    let d2 = a2.wrapping_sub(b2).wrapping_sub((br1a || br1b) as u64);
+    vcheck!("C10.f128.sub_192x192.exact", z0 == d0 && z1 == d1 && z2 == d2);
+    vreach!("C10.f128.sub192.reach");
+}
